@@ -53,6 +53,13 @@ type PolicyVerifier struct { //nolint:revive
 
 	persistentCacheEnabled bool
 	persistentCache        *cache.Persistent
+
+	// trackLastVerifiedEntry is set while verifying a reference from its first
+	// entry (or from the entry a prior such verification reached). Only then
+	// does reaching an entry mean everything before it was verified, so only
+	// then may it be recorded in the persistent cache as the point future
+	// full verifications resume from.
+	trackLastVerifiedEntry bool
 }
 
 func NewPolicyVerifier(repo gitstore.Storer) *PolicyVerifier {
@@ -124,6 +131,8 @@ func (v *PolicyVerifier) VerifyRefFull(ctx context.Context, target string) (gith
 	}
 
 	slog.Debug("Verifying all entries...")
+	v.trackLastVerifiedEntry = true
+	defer func() { v.trackLastVerifiedEntry = false }()
 	return latestEntry.GetTargetID(), v.VerifyRelativeForRef(ctx, firstEntry, latestEntry, target)
 }
 
@@ -609,7 +618,7 @@ func (v *PolicyVerifier) VerifyRelativeForRef(ctx context.Context, firstEntry, l
 						// Fix entry does not exist after revoking annotation
 						return verificationErr
 					}
-				} else if v.persistentCacheEnabled {
+				} else if v.persistentCacheEnabled && v.trackLastVerifiedEntry {
 					// Verification has passed, add to cache
 					v.persistentCache.SetLastVerifiedEntryForRef(entry.GetRefName(), entry.GetNumber(), entry.GetID())
 				}
@@ -737,7 +746,7 @@ func (v *PolicyVerifier) VerifyRelativeForRef(ctx context.Context, firstEntry, l
 
 		entries = newEntryQueue
 
-		if v.persistentCacheEnabled {
+		if v.persistentCacheEnabled && v.trackLastVerifiedEntry {
 			v.persistentCache.SetLastVerifiedEntryForRef(fixEntry.RefName, fixEntry.GetNumber(), fixEntry.GetID())
 		}
 	}
